@@ -16,7 +16,7 @@ CHECKS = {
 }
 for p in ['C01', 'C02', 'C03', 'C04', 'C05', 'C06', 'C07', 'C08', 'C09', 'C20']:
     CHECKS[p] = pool('explicit-state BFS over histories of balancer callbacks, picks, completions and clock advances on the real gcpBalancer over a fake ClientConn; distinct canonical state keys in which the premise of a rule of this property was exercised')
-    CHECKS[p]['deadline_s'] = {'quick': 420, 'thorough': 1500}
+    CHECKS[p]['deadline_s'] = {'quick': 600, 'thorough': 1500}
 
 CHECKS['C12'] = dict(module='grpcgcp', pkg='grpcgcp', harness='grpcgcp',
                      instrument=[{'pkg': 'grpcgcp', 'vgrpc': 'gcp_multiendpoint.go'}, {'pkg': 'grpcgcp/multiendpoint'}], level='model_checking',
@@ -25,7 +25,7 @@ CHECKS['C12'] = dict(module='grpcgcp', pkg='grpcgcp', harness='grpcgcp',
 
 for p in ['C15', 'C16']:
     CHECKS[p] = pool('explicit-state BFS over histories of UpdateMultiEndpoints (valid and invalid option sets), pool connectivity changes, dial failures, RPC probes and Close on the real GCPMultiEndpoint over fake pools; non-trivial = states reached through at least one reconfiguration or connectivity change')
-    CHECKS[p]['deadline_s'] = {'quick': 480, 'thorough': 1500}  # the gme drivers (7 variants) need about 200 s on 16 idle cores
+    CHECKS[p]['deadline_s'] = {'quick': 900, 'thorough': 1500}  # the gme drivers (7 variants) need about 200 s on 16 idle cores
 
 def inputs(module, pkg, harness, rule, instrument=None):
     return dict(module=module, pkg=pkg, harness=harness, instrument=instrument or [], level='exploration',
